@@ -56,7 +56,7 @@ theorem dir_stable {π : Par} {lvl : Level} {who : Nat → Prop} {fs : FS} {o : 
   | write p' i d _ =>
     obtain ⟨_, _, _, hg⟩ := write_spec p' i d fs
     exact ⟨j, by rw [hg, hj]; rfl⟩
-  | renameOut a o _ _ =>
+  | renameOut a o _ _ _ =>
     rcases rename_spec (pTmpOut a o) (pOut a) fs with e | ⟨i0, c0, hp', _, _, _, _, hor, hg⟩
     · rw [e]; exact ⟨j, hj⟩
     · have hq : fs.get (pOut a) = none ∨ ∃ j' c', fs.get (pOut a) = some (.file j' c') := by
@@ -66,7 +66,7 @@ theorem dir_stable {π : Par} {lvl : Level} {who : Nat → Prop} {fs : FS} {o : 
       rcases getMove_dir hj hp' hq with h1 | h1
       · exact ⟨j, by rw [hg]; exact h1⟩
       · exact absurd h1 h0
-  | renameMeta a o _ _ =>
+  | renameMeta a o _ _ _ =>
     rcases rename_spec (pTmpMeta a o) (pMeta a) fs with e | ⟨i0, c0, hp', _, _, _, _, hor, hg⟩
     · rw [e]; exact ⟨j, hj⟩
     · have hq : fs.get (pMeta a) = none ∨ ∃ j' c', fs.get (pMeta a) = some (.file j' c') := by
@@ -269,8 +269,8 @@ theorem locOnly_stable {π : Par} {lvl : Level} {me : Nat} {i : Nat} {p : Path} 
       have := hl q hq
       rename_i hne
       exact hne this
-    | renameOut a o ho _ => exact mine_not_other hp ⟨a, o, ho, Or.inl rfl⟩
-    | renameMeta a o ho _ => exact mine_not_other hp ⟨a, o, ho, Or.inr rfl⟩
+    | renameOut a o _ ho _ => exact mine_not_other hp ⟨a, o, ho, Or.inl rfl⟩
+    | renameMeta a o _ ho _ => exact mine_not_other hp ⟨a, o, ho, Or.inr rfl⟩
 
 
 theorem tmp_ne_nil {who : Nat → Prop} {p : Path} (h : IsTmp who p) : p ≠ [] := by
@@ -322,14 +322,14 @@ theorem tmpData_stable {π : Par} {lvl : Level} {me : Nat} {p : Path} {i : Nat} 
       · subst hji
         exact absurd (hw p (Or.inl ⟨c, h⟩)) (tmp_not_writable_by_others hp)
       · simp [wr, hji]
-  | renameOut a o ho _ =>
+  | renameOut a o _ ho _ =>
     have h1 : p ≠ pTmpOut a o := by rintro rfl; exact tmp_owner hp ⟨a, o, ho, Or.inl rfl⟩
     have h2 : p ≠ pOut a := by rintro rfl; exact not_creatable_out (who := fun x => x = me) a (Or.inl hp)
     rcases rename_spec (pTmpOut a o) (pOut a) fs with e | ⟨_, _, _, _, _, _, _, _, hg⟩
     · rw [e]; exact h
     · refine keep _ ?_
       rw [hg]; unfold getMove; rw [if_neg h0, if_neg h2, if_neg h1]
-  | renameMeta a o ho _ =>
+  | renameMeta a o _ ho _ =>
     have h1 : p ≠ pTmpMeta a o := by rintro rfl; exact tmp_owner hp ⟨a, o, ho, Or.inr rfl⟩
     have h2 : p ≠ pMeta a := by rintro rfl; exact not_creatable_meta (who := fun x => x = me) a (Or.inl hp)
     rcases rename_spec (pTmpMeta a o) (pMeta a) fs with e | ⟨_, _, _, _, _, _, _, _, hg⟩
@@ -654,9 +654,9 @@ theorem readK_stable {π : Par} {lvl : Level} {me : Nat} {p : Path} {i : Nat} {D
       · subst hji
         exact absurd (hw p (Or.inl ⟨D, hp⟩)) (sealed_not_writable hs)
       · left; rw [hg, hp]; simp [wr, hji]
-    | renameOut a o _ _ =>
+    | renameOut a o _ _ _ =>
       exact mv _ _ (by rintro ⟨b, e | e⟩ <;> simp [pTmpOut, pOut, pMeta] at e)
-    | renameMeta a o _ _ =>
+    | renameMeta a o _ _ _ =>
       exact mv _ _ (by rintro ⟨b, e | e⟩ <;> simp [pTmpMeta, pOut, pMeta] at e)
     | unlinkE a p' g _ _ =>
       rcases unlink_spec p' _ fs with ⟨e, _⟩ | ⟨i0, c0, hp', _, _, hn, ho, hg⟩
